@@ -99,6 +99,11 @@ def replay(path):
     logging.disable(logging.CRITICAL)
     if hasattr(eng, "replay"):
         return eng.replay(doc, path)
+    if doc.get("run", {}).get("pyopt") and not sys.flags.optimize:
+        # the violating world is an interpreter started with -O: replay in one
+        env = dict(os.environ)
+        env["PYTHONHASHSEED"] = "0"
+        os.execve(sys.executable, [sys.executable, "-O", os.path.join(runner.VERIF, "simcheck.py"), "--replay", path], env)
     res = eng.execute_run(doc["run"], runner.worker_tmp())
     want = doc["signature"]
     same = [v for v in res["violations"] if v["signature"] == want]
